@@ -31,7 +31,11 @@ fn install_hook() {
     std::panic::set_hook(Box::new(|info| {
         let loc = info.location().map(|l| {
             let f = l.file();
-            let f = f.strip_prefix("/repo/").unwrap_or(f);
+            // /repo/... or a private mutate copy .../repo/...
+            let f = match f.find("/repo/") {
+                Some(i) => &f[i + 6..],
+                None => f,
+            };
             // std locations: keep only the tail below library/
             let f = match f.find("/library/") {
                 Some(i) => &f[i + 1..],
@@ -1497,11 +1501,17 @@ fn run_api(bytes: &[u8], api: usize, sel: u64) -> Result<(), Trap> {
                 }
             }
             5 => {
+                if std::env::var("C20_TRACE").is_ok() {
+                    eprintln!("AUTOHINT size={:?} use_loc={} gids={:?}", size, use_loc, gids);
+                }
                 let o = font.outline_glyphs();
                 let opts = HintingOptions { engine: Engine::Auto(None), target: target_of(rng.range(0, 3) as u8) };
                 if let Ok(inst) = HintingInstance::new(&o, size, lref, opts) {
                     for g in &gids {
                         if let Some(gl) = o.get(GlyphId::new(*g)) {
+                            if std::env::var("C20_TRACE").is_ok() {
+                                eprintln!("AUTOHINT draw gid {}", g);
+                            }
                             let _ = gl.draw(DrawSettings::hinted(&inst, false), &mut NopPen);
                         }
                     }
@@ -1672,16 +1682,39 @@ struct Found {
     kind: Kind,
     input: serde_json::Value,
     bc: Option<BcCase>,
+    mu: Option<(Mutation, usize, u64)>,
 }
 
-fn search(seed: u64, thorough: bool, st: &mut Stats) -> BTreeMap<String, Found> {
-    let fonts = load_fonts();
+fn describe_mut(fonts: &[(&'static str, Vec<u8>)], m: &Mutation, api: usize, sel: u64) -> serde_json::Value {
+    let edits: Vec<serde_json::Value> = m.edits.iter().map(|(w, _, b)| json!({"at": w, "bytes_hex": b.iter().map(|x| format!("{:02x}", x)).collect::<String>()})).collect();
+    json!({"kind": "field-mutation", "font": fonts[m.font].0, "edits": edits, "api": API_NAMES[api], "api_selector": sel,
+           "replay": "font_test_data font (IFT:* = SIMPLE_GLYF + `IFT ` table from font_test_data::ift::<name>()), overwrite the bytes at <table>+<offset>, then run the API group (run_api in harness/src/bin/c20.rs) with Rng::new(api_selector)"})
+}
+
+/// greedy reduction of a field mutation: drop edits while the same site still traps
+fn reduce_mut(fonts: &[(&'static str, Vec<u8>)], m: &Mutation, api: usize, sel: u64, key: &str) -> Mutation {
+    let mut cur = m.clone();
+    let mut i = 0;
+    while i < cur.edits.len() && cur.edits.len() > 1 {
+        let mut t = cur.clone();
+        t.edits.remove(i);
+        let bytes = apply_mutation(fonts, &t);
+        if matches!(run_api(&bytes, api, sel), Err(tr) if site_key(&tr) == key) {
+            cur = t;
+        } else {
+            i += 1;
+        }
+    }
+    cur
+}
+
+fn search(seed: u64, thorough: bool, st: &mut Stats, fonts: &[(&'static str, Vec<u8>)]) -> BTreeMap<String, Found> {
     let envn = |k: &str, d: u64| std::env::var(k).ok().and_then(|v| v.parse().ok()).unwrap_or(d);
     let n_bc: u64 = envn("C20_NBC", if thorough { 6_000_000 } else { 700_000 });
     let n_mut: u64 = envn("C20_NMUT", if thorough { 400_000 } else { 40_000 });
     let threads = envn("C20_THREADS", 16);
     let trace = std::env::var("C20_TRACE").is_ok();
-    let fonts_ref = &fonts;
+    let fonts_ref = fonts;
     let mut results: Vec<(BTreeMap<String, Found>, BTreeMap<String, u64>)> = vec![];
     std::thread::scope(|sc| {
         let mut hs = vec![];
@@ -1689,13 +1722,13 @@ fn search(seed: u64, thorough: bool, st: &mut Stats) -> BTreeMap<String, Found> 
             hs.push(sc.spawn(move || {
                 let mut found: BTreeMap<String, Found> = BTreeMap::new();
                 let mut counts: BTreeMap<String, u64> = BTreeMap::new();
-                let mut note = |found: &mut BTreeMap<String, Found>, counts: &mut BTreeMap<String, u64>, idx: u64, trap: Trap, input: &dyn Fn() -> serde_json::Value, bc: Option<&BcCase>| {
+                let mut note = |found: &mut BTreeMap<String, Found>, counts: &mut BTreeMap<String, u64>, idx: u64, trap: Trap, input: &dyn Fn() -> serde_json::Value, bc: Option<&BcCase>, mu: Option<(Mutation, usize, u64)>| {
                     let kind = classify(&trap.msg);
                     *counts.entry(format!("panic.{:?}", kind)).or_insert(0) += 1;
                     let key = site_key(&trap);
                     let e = found.get(&key);
                     if e.map(|f| idx < f.idx).unwrap_or(true) {
-                        found.insert(key, Found { idx, trap, kind, input: input(), bc: bc.cloned() });
+                        found.insert(key, Found { idx, trap, kind, input: input(), bc: bc.cloned(), mu });
                     }
                 };
                 // bytecode cases
@@ -1708,7 +1741,7 @@ fn search(seed: u64, thorough: bool, st: &mut Stats) -> BTreeMap<String, Found> 
                         eprintln!("BC {} {}", i, c.describe());
                     }
                     if let Err(trap) = c.run() {
-                        note(&mut found, &mut counts, i, trap, &|| c.describe(), Some(&c));
+                        note(&mut found, &mut counts, i, trap, &|| c.describe(), Some(&c), None);
                     }
                     i += threads;
                 }
@@ -1732,10 +1765,34 @@ fn search(seed: u64, thorough: bool, st: &mut Stats) -> BTreeMap<String, Found> 
                             eprintln!("MUT {} {} api={} {:?}", i, fonts_ref[m.font].0, API_NAMES[api], m.edits.iter().map(|(w, _, b)| format!("{w}={b:?}")).collect::<Vec<_>>());
                         }
                         *counts.entry(format!("mut.api.{}", API_NAMES[api])).or_insert(0) += 1;
-                        if let Err(trap) = run_api(&bytes, api, sel) {
+                        // known hang (reported in notes/C20.md, belongs to C02): the auto-hinter's long-blue scan
+                        // loops forever on some mutated outlines of this font
+                        if api == 5 && fonts_ref[m.font].0.contains("HEBREW") && m.edits.iter().any(|(w, _, _)| w.starts_with("glyf") || w.starts_with("head") || w.starts_with("loca")) {
+                            *counts.entry("mut.skipped_known_autohint_hang".into()).or_insert(0) += 1;
+                            continue;
+                        }
+                        let res = {
+                            let (tx, rx) = std::sync::mpsc::channel();
+                            let b2 = bytes.clone();
+                            let _ = std::thread::Builder::new().stack_size(4 << 20).spawn(move || {
+                                let r = run_api(&b2, api, sel);
+                                let _ = tx.send(r);
+                            });
+                            rx.recv_timeout(std::time::Duration::from_secs(20))
+                        };
+                        let res = match res {
+                            Ok(r) => r,
+                            Err(_) => {
+                                // abandoned (the helper thread keeps spinning until exit)
+                                *counts.entry(format!("HANG.{}.{}", fonts_ref[m.font].0, API_NAMES[api])).or_insert(0) += 1;
+                                eprintln!("HANG >20s: font={} api={} sel={} edits={:?}", fonts_ref[m.font].0, API_NAMES[api], sel, m.edits.iter().map(|(w, _, b)| format!("{w}={b:02x?}")).collect::<Vec<_>>());
+                                continue;
+                            }
+                        };
+                        if let Err(trap) = res {
                             let fname = fonts_ref[m.font].0;
                             let edits: Vec<serde_json::Value> = m.edits.iter().map(|(w, _, b)| json!({"at": w, "bytes_hex": b.iter().map(|x| format!("{:02x}", x)).collect::<String>()})).collect();
-                            note(&mut found, &mut counts, (1 << 40) + i, trap, &|| json!({"kind": "field-mutation", "font": fname, "edits": edits, "api": API_NAMES[api], "api_selector": sel}), None);
+                            note(&mut found, &mut counts, (1 << 40) + i, trap, &|| json!({"kind": "field-mutation", "font": fname, "edits": edits, "api": API_NAMES[api], "api_selector": sel}), None, Some((m.clone(), api, sel)));
                         }
                     }
                     i += threads;
@@ -1910,7 +1967,9 @@ fn census() -> serde_json::Value {
     for (name, roots) in groups {
         let mut c = Census::default();
         for r in *roots {
-            let p = std::path::Path::new(r);
+            let repo = std::env::var("FV_REPO").unwrap_or_else(|_| "/repo".into());
+            let r = r.replacen("/repo", &repo, 1);
+            let p = std::path::Path::new(&r);
             let mut files = vec![];
             if p.is_dir() {
                 walk(p, &mut files);
@@ -1939,17 +1998,44 @@ fn census() -> serde_json::Value {
         tot.float_lines_skipped += c.float_lines_skipped;
     }
     // sites translated into coq/C20/Model.v (each chk_/wrap_/sat_ primitive occurrence mirrors one Rust site)
-    const TRANSLATED_UNCHECKED: u64 = 68;
-    const TRANSLATED_EXPLICIT: u64 = 27;
+    // sites translated: occurrences of checked / explicit primitives in coq/C20/Model.v (comments stripped,
+    // the primitives' own definitions excluded)
+    let (translated_unchecked, translated_explicit) = {
+        let src = std::fs::read_to_string("/verif/coq/C20/Model.v").unwrap_or_default();
+        let mut out = String::new();
+        let mut depth = 0;
+        let b: Vec<char> = src.chars().collect();
+        let mut i = 0;
+        while i < b.len() {
+            if b[i] == '(' && i + 1 < b.len() && b[i + 1] == '*' {
+                depth += 1;
+                i += 2;
+            } else if depth > 0 && b[i] == '*' && i + 1 < b.len() && b[i + 1] == ')' {
+                depth -= 1;
+                i += 2;
+            } else {
+                if depth == 0 {
+                    out.push(b[i]);
+                }
+                i += 1;
+            }
+        }
+        let body: String = out.lines().filter(|l| !(l.starts_with("Definition add32") || l.starts_with("Definition sub32") || l.starts_with("Definition mul32") || l.starts_with("Definition neg32") || l.starts_with("Definition abs32") || l.starts_with("Definition div32") || l.starts_with("Definition add64") || l.starts_with("Definition sub64") || l.starts_with("Definition mul64") || l.starts_with("Definition addu64") || l.starts_with("Definition subu64"))).collect::<Vec<_>>().join("\n");
+        let cnt = |pats: &[&str]| -> u64 { pats.iter().map(|p| body.matches(p).count() as u64).sum() };
+        (
+            cnt(&["add32 ", "sub32 ", "mul32 ", "neg32 ", "abs32 ", "div32 ", "div_s 64", "add64 ", "sub64 ", "mul64 ", "addu64 ", "subu64 ", "chk_u 16", "fx_neg ", "fx_abs ", "fx_fract "]),
+            cnt(&["wrap_s ", "wrap_u ", "sat_s ", "sat_u ", "fx_add ", "fx_sub ", "clamp "]),
+        )
+    };
     let found = tot.binary_checked + tot.unary_neg + tot.abs_calls;
     json!({
         "method": "lexical scan of non-test, non-comment code in the anchored files: binary + - * << (incl. compound assignment) with at least one non-literal operand, unary minus on a non-literal, .abs(); lines mentioning float types are counted separately; trait-bound `+`, `->`, deref `*` excluded heuristically. An over-approximation of integer sites (includes usize index arithmetic).",
         "per_group": per,
         "unchecked_arith_expressions_found": found,
         "explicit_wrapping_saturating_checked_calls_found": tot.explicit,
-        "sites_translated_unchecked": TRANSLATED_UNCHECKED,
-        "sites_translated_explicit": TRANSLATED_EXPLICIT,
-        "coverage_of_unchecked_sites_percent": (TRANSLATED_UNCHECKED as f64 * 1000.0 / found.max(1) as f64).round() / 10.0,
+        "sites_translated_unchecked": translated_unchecked,
+        "sites_translated_explicit": translated_explicit,
+        "coverage_of_unchecked_sites_percent": (translated_unchecked as f64 * 1000.0 / found.max(1) as f64).round() / 10.0,
     })
 }
 
@@ -1970,15 +2056,17 @@ fn main() {
     );
     let kernel_traps = correspondence(&mut st, &mut cw, &mut rng, thorough);
     // (b) search
-    let found = search(seed, thorough, &mut st);
+    let fonts = load_fonts();
+    let found = search(seed, thorough, &mut st, &fonts);
     let mut sites = vec![];
     let mut other = vec![];
     let mut reached: std::collections::BTreeSet<String> = Default::default();
     for (key, f) in &found {
         reached.insert(f.trap.loc.clone());
-        let input = match &f.bc {
-            Some(c) => reduce_bc(c, key).describe(),
-            None => f.input.clone(),
+        let input = match (&f.bc, &f.mu) {
+            (Some(c), _) => reduce_bc(c, key).describe(),
+            (None, Some((m, api, sel))) => describe_mut(&fonts, &reduce_mut(&fonts, m, *api, *sel, key), *api, *sel),
+            _ => f.input.clone(),
         };
         let rec = json!({"key": key, "site": f.trap.loc, "message": f.trap.msg, "class": format!("{:?}", f.kind), "minimal_input": input});
         match f.kind {
